@@ -106,5 +106,61 @@ theorem mkQH_docstring (n : Nat) (herm Δ : Tensor) (c mu : GQ) (hH : Shaped n 2
     rw [this]
     ring
 
+theorem sumN2_zero (n : Nat) (F : Nat → Nat → GQ) (hF : ∀ p q, p < n → q < n → F p q = 0) :
+    sumN n (fun p => sumN n (fun q => F p q)) = 0 := by
+  have e1 : sumN n (fun p => sumN n (fun q => F p q)) = sumN n (fun _ => 0) := by
+    apply sumN_congr; intro p hp
+    have e2 : sumN n (fun q => F p q) = sumN n (fun _ => 0) := by
+      apply sumN_congr; intro q hq; exact hF p q hp hq
+    rw [e2, sumN_zero]
+  rw [e1, sumN_zero]
+
+/-- the constructor without an antisymmetric part: the docstring operator with `Δ = 0` -/
+theorem mkQH_docstring_none (n : Nat) (herm : Tensor) (c mu : GQ) (hH : Shaped n 2 herm) (w : Term → GQ) :
+    evalW w (denotePT (mkQH n herm none c mu).d) = evalW w (denoteQH n herm (tzeros n 2) mu c) := by
+  have hd : (mkQH n herm none c mu).d
+      = [([], .s c), ([1, 0], if mu = 0 then herm else addDiag n (-mu) herm)] := rfl
+  have hk0 : evK w [] (.s c) = c * w [] := by simp [evK, evalT]
+  have hrange : ∀ i ∈ List.range n, i < n := fun i hi => List.mem_range.mp hi
+  have hcomb : Shaped n 2 (if mu = 0 then herm else addDiag n (-mu) herm) ∧
+      ∀ p q, p < n → q < n → tget [p, q] (if mu = 0 then herm else addDiag n (-mu) herm)
+        = some ((tget [p, q] herm).getD 0 - if p = q then mu else 0) := by
+    by_cases hmu : mu = 0
+    · rw [if_pos hmu]
+      refine ⟨hH, fun p q hp hq => ?_⟩
+      rw [tget_getD n herm hH p q hp hq, hmu]; simp
+    · rw [if_neg hmu]
+      obtain ⟨sh', h'⟩ := addDiag_entries n (-mu) (fun p q => (tget [p, q] herm).getD 0) (List.range n) herm
+        List.nodup_range hrange hH (fun p q hp hq => by rw [tget_getD n herm hH p q hp hq]; simp)
+      refine ⟨sh', fun p q hp hq => ?_⟩
+      have := h' p q hp hq
+      unfold addDiag
+      rw [this]
+      congr 1
+      have hin : p ∈ List.range n := List.mem_range.mpr hp
+      by_cases hpq : p = q
+      · subst hpq; simp only [hin, and_self, if_true]; ring
+      · simp only [hpq, false_and, if_false]; ring
+  rw [evalW_denotePT, hd]
+  simp only [evD, add_zero]
+  rw [hk0, evK2_eq n w [1, 0] rfl _ hcomb.1 _ hcomb.2]
+  unfold denoteQH
+  rw [evalW_eq_lsum]
+  simp only [lsum_append, lsum_map, lsum_flatMap]
+  rw [lsum_pairs, lsum_pairs]
+  simp only [lsum, add_zero]
+  have hz : sumN n (fun p => sumN n (fun q =>
+      (⟨1/2, 0⟩ : GQ) * entry2 (tzeros n 2) p q * w [(p, 1), (q, 1)]
+        + (⟨1/2, 0⟩ : GQ) * GQ.conj (entry2 (tzeros n 2) p q) * w [(q, 0), (p, 0)])) = 0 := by
+    apply sumN2_zero
+    intro p q hp hq
+    rw [entry2_eq, tget_tzeros n 2 [p, q] rfl (lt2 hp hq)]
+    simp [conj_zero']
+  rw [hz, add_zero]
+  congr 1
+  apply sumN_congr; intro p _
+  apply sumN_congr; intro q _
+  rw [entry2_eq]; rfl
+
 end C08P
 end OFV
